@@ -273,7 +273,7 @@ PROPS = {
                      "bufio.Reader Read/Discard depend on the remaining bytes only"],
     ),
     "C07": dict(
-        proof_modules=["KsVerif.Proofs.C07"],
+        proof_modules=["KsVerif.Proofs.C07", "KsVerif.Proofs.C07Conv"],
         families=["redis.conv", "redis.bigreply"],
         rule="redis.bigreply: a reply array of n elements for n = 2^20 - 1, 2^20, 2^20 + 1, 2^20 + 3 (thorough: also 2^21 + 5 and more), "
              "followed by a second command and its reply: two pairs, all n elements in the first reply, the second command answered "
